@@ -102,8 +102,36 @@ impl PartialEq for Tracked {
         self.q == o.q
     }
 }
+thread_local! {
+    /// `Some(k)`: the k-th order comparison from now on panics (a sample type whose `PartialOrd` can fail, e.g. an
+    /// ordered float that rejects NaN); the budget disarms itself when it fires
+    static CMP_BUDGET: std::cell::Cell<Option<u64>> = std::cell::Cell::new(None);
+    static CMP_FIRED: std::cell::Cell<bool> = std::cell::Cell::new(false);
+}
+pub fn set_cmp_budget(b: Option<u64>) {
+    CMP_BUDGET.with(|c| c.set(b));
+    CMP_FIRED.with(|c| c.set(false));
+}
+pub fn cmp_budget_fired() -> bool {
+    CMP_FIRED.with(|c| c.get())
+}
 impl PartialOrd for Tracked {
     fn partial_cmp(&self, o: &Tracked) -> Option<std::cmp::Ordering> {
+        let fire = CMP_BUDGET.with(|c| match c.get() {
+            Some(n) if n <= 1 => {
+                c.set(None);
+                true
+            }
+            Some(n) => {
+                c.set(Some(n - 1));
+                false
+            }
+            None => false,
+        });
+        if fire {
+            CMP_FIRED.with(|c| c.set(true));
+            panic!("sample comparison failed (comparison budget of the instrumented sample type)");
+        }
         self.q.partial_cmp(&o.q)
     }
 }
